@@ -122,6 +122,8 @@ def check(ctx):
     _r4(ctx)
     _r5(ctx)
     _r6(ctx)
+    _len_cache(ctx)
+    _lines_per_frame(ctx)
 
 
 def _r1(ctx):
@@ -195,6 +197,17 @@ def _r1(ctx):
                            "branch sets the position to `%s` (from `%s`), expected %s" % (fmt(got), what, fmt(want[w])))
         ok = bool(else_body) and any(isinstance(s, ast.Raise) for s in else_body)
         ctx.decide(ok, "C18-R1", chain, rel, q, "other arguments", "rejected with an error", "invalid whence/offset combinations are silently accepted")
+        # assignments of the position outside the whence chain may only clamp to [0, len]
+        chain_nodes = {id(x) for x in ast.walk(chain)}
+        for a in walk_no_nested(fn):
+            if isinstance(a, ast.Assign) and dotted(a.targets[0]) in ("self._frame_index", "self.frame_counter") and id(a) not in chain_nodes:
+                l = lin(a.value, env)
+                s2 = src(a.value).replace(" ", "")
+                okc = l in ({"T": 1}, {}, {"P": 1}) or l == lin(ast.parse("absolute", mode="eval").body, dict(env, absolute={"A": 1})) or dotted(a.value) in ("absolute", "pos") \
+                    or (l is not None and len(l) == 1 and isinstance(list(l)[0], tuple) and (_freeze({"T": 1}) in list(l)[0][1:]) and (_freeze({"P": 1}) in list(l)[0][1:])) \
+                    or const(a.value) == 0
+                ctx.decide(okc, "C18-R1", a, rel, q, "position re-assigned after the whence table: `%s`" % src(a)[:50], "clamp to [0, len]",
+                           "`%s` moves a legal position (e.g. the end position len, from which read() returns nothing): seek(len) then lands on the last frame" % src(a)[:70])
 
 
 def _r2(ctx):
@@ -303,6 +316,37 @@ def _r3(ctx):
                          "(tell() ends one past the number of frames)" % (trim, src(v)))
         else:
             ctx.undecided("C18-R3", inc[0], rel, q, "frame_counter += %s" % src(v), "increment amount not recognised")
+    # xtc / trr: with cached offsets (efficient striding) the position is moved by self.seek(stride, 1) only:
+    # every iteration that returns a frame must then pass such a seek (or a counter assignment) before the next one
+    for key in ("xtc", "trr"):
+        rel, cls = F.rel_cls(key)
+        fn = F.method(ctx, key, "_read")
+        q = cls + "._read"
+        cfg = CFG(fn)
+
+        def atom(e):
+            d = dotted(e)
+            if d == "efficient_striding":
+                return "eff"
+            if isinstance(e, ast.Compare) and src(e).replace(" ", "") == "stride>1":
+                return "strided"
+            return None
+        loops = [n for n in cfg.nodes() if cfg.kind[n] == "test" and isinstance(cfg.stmt[n], ast.While)]
+        incs = [n for n in cfg.nodes() if cfg.kind[n] == "stmt" and isinstance(cfg.stmt[n], ast.AugAssign) and dotted(cfg.stmt[n].target) in ("n_read_frames", "i")
+                and const(cfg.stmt[n].value) == 1]
+        adv = {n for n in cfg.nodes() if any(isinstance(c, ast.Call) and call_name(c) == "self.seek" for e in cfg.own_exprs(n) for c in ast.walk(e))
+               or (cfg.kind[n] == "stmt" and isinstance(cfg.stmt[n], (ast.Assign, ast.AugAssign)) and
+                   dotted(cfg.stmt[n].targets[0] if isinstance(cfg.stmt[n], ast.Assign) else cfg.stmt[n].target) == "self.frame_counter")}
+        if not loops or not incs:
+            ctx.undecided("C18-R3", fn, rel, q, "efficient striding", "frame loop / per-frame counter not recognised")
+            continue
+        head = loops[0]
+        first_inc = min(incs, key=lambda n: cfg.stmt[n].lineno)
+        reach = cfg.reachable_under(first_inc, {"eff": True, "strided": True}, atom, removed=adv)
+        ok = head not in reach and cfg.exit not in reach
+        ctx.decide(ok, "C18-R3", cfg.stmt[first_inc], rel, q, "strided read with cached offsets advances the position for every frame returned", "",
+                   "with cached offsets the position is only moved by self.seek(stride, whence=1); on the path where that seek is skipped (last stride window) a frame "
+                   "is returned without moving the position: tell() is stale and iterload(chunk, skip>0, stride>1) re-reads the last frame for ever")
     # dtr: one increment per loop iteration that returns a frame
     rel, cls = F.rel_cls("dtr")
     fn = F.method(ctx, "dtr", "read")
@@ -418,6 +462,80 @@ def _r6(ctx):
                 why = "xdr_seek at line %d is not covered by a finally block that seeks back to %s" % (s.lineno, saved)
         ctx.decide(ok and bool(seeks), "C18-R6", fn, rel, q, "file position restored in finally", "%d seeks, all under try/finally restoring %s" % (len(seeks), saved),
                    why or "the C file position is not saved before the offset scan")
+
+
+def _len_cache(ctx):
+    """R6b: the value len() returns is computed from the whole file; a cache for it is only filled by __len__ / the offset scan / the constructor."""
+    for key in ("xyz", "xtc", "trr", "mdcrd", "lammpstrj"):
+        rel, cls = F.rel_cls(key)
+        mod = ctx.py.mod(rel)
+        ln = mod.functions.get(cls + ".__len__")
+        if ln is None:
+            continue
+        rets = [n for n in walk_no_nested(ln) if isinstance(n, ast.Return) and n.value is not None]
+        attrs = set()
+        for r in rets:
+            for x in ast.walk(r.value):
+                d = dotted(x) if isinstance(x, ast.Attribute) else None
+                if d and d.startswith("self.") and d.count(".") == 1:
+                    attrs.add(d)
+        for a in sorted(attrs):
+            writers = []
+            for mname, fn in mod.methods(cls).items():
+                for n in walk_no_nested(fn):
+                    if isinstance(n, (ast.Assign, ast.AugAssign)):
+                        tg = n.targets if isinstance(n, ast.Assign) else [n.target]
+                        for t in tg:
+                            ts = [t] if not isinstance(t, ast.Tuple) else t.elts
+                            if any(dotted(x) == a for x in ts):
+                                writers.append((mname, n))
+            allowed = ("__len__", "__init__", "__cinit__", "_calc_len_and_offsets", "offsets.getter", "offsets", "offsets.setter", "close")
+            bad = [(m, n) for (m, n) in writers if m not in allowed and not (isinstance(n.value, ast.Constant))]
+            ctx.decide(not bad, "C18-R6", bad[0][1] if bad else ln, rel, cls + ".__len__", "%s is only filled from a whole-file scan" % a, "writers: %s" % sorted({m for m, _ in writers}),
+                       "the frame count that len() returns is also assigned in %s (`%s`): after a partial read the cached length depends on where reading started"
+                       % (bad[0][0] if bad else "", src(bad[0][1])[:60] if bad else ""))
+
+
+def _lines_per_frame(ctx):
+    """R3b: any loop that skips a frame by counting lines must use the writer's/reader's line arithmetic: ceil(3*n_atoms / 10) lines per mdcrd frame."""
+    rel, cls = F.rel_cls("mdcrd")
+    mod = ctx.py.mod(rel)
+    found = False
+    for mname, fn in mod.methods(cls).items():
+        for n in walk_no_nested(fn):
+            if isinstance(n, ast.For) and isinstance(n.iter, ast.Call) and call_name(n.iter) == "range" and len(n.iter.args) == 1 and "_n_atoms" in src(n.iter.args[0]) \
+                    and any(isinstance(c, ast.Call) and call_name(c) == "self._fh.readline" for c in ast.walk(n)):
+                found = True
+                expr = n.iter.args[0]
+                bad = None
+                for natoms in range(1, 64):
+                    try:
+                        code = compile(ast.Expression(body=_subst(expr, natoms)), "<lines>", "eval")
+                        v = eval(code, {"__builtins__": {}}, {})
+                    except Exception:
+                        v = None
+                    want = -(-3 * natoms // 10)
+                    if v != want:
+                        bad = (natoms, v, want)
+                        break
+                ctx.decide(bad is None, "C18-R3", n, rel, "%s.%s" % (cls, mname), "lines per frame == ceil(3*n_atoms/10)", src(expr),
+                           "`%s` lines are skipped per frame, but a frame of %s atoms occupies %s lines (got %s): seek() lands in the middle of a frame"
+                           % (src(expr), bad[0] if bad else "", bad[2] if bad else "", bad[1] if bad else ""))
+    if not found:
+        ctx.holds("C18-R3", mod.cls(cls), rel, cls, "no line-counting frame skip", "frames are skipped with the frame parser itself (_read)")
+
+
+def _subst(expr, natoms):
+    import copy
+
+    class T(ast.NodeTransformer):
+        def visit_Attribute(self, node):
+            if dotted(node) == "self._n_atoms":
+                return ast.copy_location(ast.Constant(natoms), node)
+            return self.generic_visit(node)
+    e = T().visit(copy.deepcopy(expr))
+    ast.fix_missing_locations(e)
+    return e
 
 
 def _contains(root, node):
